@@ -449,13 +449,20 @@ class Act(object):
                                 " to resolve relative pathname.", ipath, self,
                                 self.human, self.count)
 
+            try:
+                created = (self.frame.store.createNode(ipath.rstrip('.')) if ipath.endswith('.')
+                           else self.frame.store.create(ipath))
+            except ValueError as ex:  # path runs through a share or names an existing node
+                raise excepting.ResolveError("ResolveError: Bad path: {0}".format(ex), ipath, self,
+                                             self.human, self.count)
+
             if ipath.endswith('.'): # Node not Share
-                ipath = self.frame.store.createNode(ipath.rstrip('.'))
+                ipath = created
                 if warn:
                     console.profuse( "     Warning: Non-existent node '{0}' "
                                         "... creating anyway\n".format(ipath))
             else: # Share
-                ipath = self.frame.store.create(ipath)
+                ipath = created
                 if ival is not None:
                     if iown:
                         ipath.update(ival)
